@@ -129,6 +129,7 @@ pub fn run(args: &Args, r: &mut Report) {
     r.assume("letter case of scheme and host, userinfo and fragments are don't-cares; an empty existing query ('...?') may be continued with or without '&'");
     let mut nonces: BTreeSet<String> = BTreeSet::new();
     let mut reused = 0u64;
+    let mut long_lived: Option<StandardCupv2Handler> = None;
     // ---- (a) direct builds
     let n = args.budget(60_000, 400_000);
     for i in 0..n {
@@ -146,6 +147,12 @@ pub fn run(args: &Args, r: &mut Report) {
         }
         let keys = ServerKeys::generate(&mut Rng::new(100 + (i % 7)), &ids);
         let handler = StandardCupv2Handler::new(&keys.public_keys());
+        // one handler that lives as long as the shard and sees every service URL (a product talking to several
+        // endpoints, or one whose URL is reconfigured, keeps its handler)
+        if long_lived.is_none() {
+            let k = ServerKeys::generate(&mut Rng::new(4242), &[77, 5]);
+            long_lived = Some(StandardCupv2Handler::new(&k.public_keys()));
+        }
         let bad = i % 25 == 24;
         let (url, class) = if bad { (BAD_URLS[(i / 25) as usize % BAD_URLS.len()].to_string(), "bad".to_string()) } else { gen_url(&mut rng) };
         let w = World::new(Script::default());
@@ -178,6 +185,19 @@ pub fn run(args: &Args, r: &mut Report) {
                         m.judge("c03-bad-url-is-error", first.is_err(), "", || format!("service url {:?} is rejected by the http crate but build returned a request", url));
                     }
                 } else {
+                    if let Some(h) = long_lived.as_ref() {
+                        if let Ok(Ok((req3, meta3))) = guard(|| b.build(Some(h))) {
+                            let uri3 = req3.uri().to_string();
+                            let got3 = judge_uri(&mut m, &url, &uri3, 77, "long-lived-handler");
+                            if let (Some(md), Some((id, nonce))) = (&meta3, &got3) {
+                                let nb: [u8; 32] = md.nonce.into();
+                                m.judge("c03-metadata-key-and-nonce", md.public_key_id == *id && ::hex::encode(nb) == *nonce, "long-lived-handler", || "metadata and wire disagree for the long-lived handler".into());
+                                if !nonces.insert(nonce.clone()) {
+                                    reused += 1;
+                                }
+                            }
+                        }
+                    }
                     match (first, second) {
                         (Ok((req1, meta1)), Ok((req2, meta2))) => {
                             let mut bodies = vec![];
